@@ -13,7 +13,7 @@ var confirmedCounts = map[string]map[string][2]int{ // rule -> prop -> {default,
 	"R4":  {"C03": {11, 11}, "C11": {11, 11}},
 	"R5":  {"C11": {9, 11}},
 	"R6":  {"C04": {9, 9}, "C16": {0, 30}, "C17": {28, 28}, "C18": {19, 44}, "C19": {19, 74}, "C20": {9, 9}},
-	"R7":  {"C17": {25, 28}, "C19": {22, 25}},
+	"R7":  {"C17": {26, 29}, "C19": {22, 25}},
 	"R8":  {"C18": {12, 15}},
 	"R9":  {"C20": {14, 14}},
 	"R10": {"C10": {61, 70}},
